@@ -223,6 +223,9 @@ pub fn check(case: &Case) -> Verdict {
     let mut j_msgs = vec![0u64; n];
     let mut j_sub = vec![0u64; n];
     let mut j_no_sub = vec![false; n];
+    let mut j_segs = vec![0u64; n];
+    let mut j_zero_seg = vec![0u64; n];
+    let mut j_seg_ambiguous = vec![false; n];
     let mut j_summary: Option<Value> = None;
     for l in json.stdout.split(|b| *b == b'\n') {
         if l.is_empty() {
@@ -255,6 +258,41 @@ pub fn check(case: &Case) -> Verdict {
                 j_lines[i] += nl;
                 let subs = v["data"]["submatches"].as_array().map(|a| a.len()).unwrap_or(0) as u64;
                 j_sub[i] += subs;
+                for sm in v["data"]["submatches"].as_array().map(|a| a.as_slice()).unwrap_or(&[]) {
+                    let t: Vec<u8> = if let Some(t) = sm["match"]["text"].as_str() {
+                        t.as_bytes().to_vec()
+                    } else if let Some(b) = sm["match"]["bytes"].as_str() {
+                        match b64(b) {
+                            Some(x) => x,
+                            None => return parse_fail("--json base64"),
+                        }
+                    } else {
+                        return parse_fail("--json submatch");
+                    };
+                    // what the multi-line -o printer writes for this match: one output line per
+                    // non-empty piece of the match between line terminators
+                    let pieces: Vec<&[u8]> = t.split(|b| *b == b'\n').collect();
+                    let mut segs = 0;
+                    for (k, piece) in pieces.iter().enumerate() {
+                        let last = k + 1 == pieces.len();
+                        let mut p: &[u8] = piece;
+                        if case.crlf && p.last() == Some(&b'\r') {
+                            if last {
+                                // whether this CR belongs to a CRLF terminator depends on the next byte of the file
+                                j_seg_ambiguous[i] = true;
+                            } else {
+                                p = &p[..p.len() - 1];
+                            }
+                        }
+                        if !p.is_empty() {
+                            segs += 1;
+                        }
+                    }
+                    j_segs[i] += segs;
+                    if segs == 0 {
+                        j_zero_seg[i] += 1;
+                    }
+                }
                 if subs == 0 {
                     j_no_sub[i] = true;
                 }
@@ -292,6 +330,13 @@ pub fn check(case: &Case) -> Verdict {
         })
         .collect();
     let mut problems: Vec<(usize, String)> = vec![];
+    let mut zero_seg_notes: Vec<String> = vec![];
+    // does rg take its multi-line printing path? (-U and a matcher that may match the terminator)
+    let effective_ml = case.multiline
+        && opat.build().ok().map_or(true, |m| {
+            use grep_matcher::Matcher;
+            m.non_matching_bytes().map_or(true, |s| !s.contains(b'\n'))
+        });
     let mut total_matches = 0u64;
     let mut total_lines = 0u64;
     for i in 0..n {
@@ -322,10 +367,21 @@ pub fn check(case: &Case) -> Verdict {
             if m != j_sub[i] {
                 problems.push((i, format!("{name}: --count-matches={m} but JSON reports {} submatches", j_sub[i])));
             }
-            if !case.multiline {
-                let o = only_recs[i].len() as u64;
+            let o = only_recs[i].len() as u64;
+            if !effective_ml {
                 if m != o {
                     problems.push((i, format!("{name}: --count-matches={m} but -o prints {o} records")));
+                }
+            } else if !j_seg_ambiguous[i] {
+                // the multi-line printer: a record may span several output lines (one per
+                // line the match touches), so the lines are compared with the JSON submatches
+                if o != j_segs[i] {
+                    problems.push((i, format!("{name}: -U -o prints {o} lines, the {} JSON submatches span {} non-empty line pieces", j_sub[i], j_segs[i])));
+                } else if j_zero_seg[i] > 0 {
+                    zero_seg_notes.push(format!(
+                        "{name}: --count-matches={m} and JSON reports {} submatches, but {} of them (empty, or nothing but line terminators) have no -o record at all",
+                        j_sub[i], j_zero_seg[i]
+                    ));
                 }
             }
             // R3: every reported matching line has at least one submatch
@@ -405,6 +461,9 @@ pub fn check(case: &Case) -> Verdict {
         }
         return Verdict::Fail(f);
     }
+    if !zero_seg_notes.is_empty() {
+        return Verdict::Fail(describe(zero_seg_notes.join("\n")).fact("multi-line-only-matching-has-no-record-for-an-empty-or-terminator-only-match"));
+    }
     let counts: Vec<u64> = (0..n).map(|i| num(&cnt_recs[i]).unwrap_or(0)).collect();
     let mut info = Info::new(counts.iter().any(|c| *c > 0) && counts.iter().any(|c| *c == 0));
     info.class_if(orc.as_ref().map_or(false, |o| o.re.is_match(b"")), "pattern_matches_empty");
@@ -412,6 +471,8 @@ pub fn check(case: &Case) -> Verdict {
     info.class_if(case.files.iter().any(|f| f.is_empty()), "empty_file");
     info.class_if(case.invert, "invert");
     info.class_if(case.multiline, "multiline");
+    info.class_if(effective_ml && !case.invert, "multi_line_only_matching_compared");
+    info.class_if(case.multiline && !effective_ml && !case.invert, "multiline_flag_line_path_only_matching_compared");
     info.class_if(case.max_count.is_some(), "max_count");
     info.class_if(case.crlf, "crlf");
     info.class_if(case.threads > 1, "threads>1");
